@@ -299,3 +299,18 @@ def final_failure_candidates(infos):
         if last.a.kind in ("exc", "res") and not last.recorded and last.polls and last.polls[0]["ans"]:
             cands.append(last)   # described as the final failure after all
     return cands
+
+
+SLACK = 1e-9   # seconds: float noise allowance (the simulated clock's grid is 1e-6 s)
+
+
+def feq(a, b):
+    """float equality up to SLACK; hostile values (rendered as strings) compare textually"""
+    if a is None or b is None:
+        return a is b
+    if isinstance(a, str) or isinstance(b, str):
+        return str(a) == str(b)
+    try:
+        return abs(a - b) <= SLACK
+    except TypeError:
+        return a == b
